@@ -1038,6 +1038,10 @@ func Send(fd int, p []byte, flags int) (err error) {
 }
 
 // RawSyscall6 / Syscall6 are used by the poll_opt poller for epoll_ctl and epoll_wait.
+// The event argument arrives as a uintptr (that is the system-call ABI); reading the event mask through it is not a
+// conversion checkptr can vouch for, so the instrumentation (-race implies it) is switched off for this function only.
+//
+//go:nocheckptr
 func RawSyscall6(trap, a1, a2, a3, a4, a5, a6 uintptr) (r1, r2 uintptr, errno unix.Errno) {
 	switch trap {
 	case unix.SYS_EPOLL_CTL:
